@@ -238,7 +238,70 @@ def gen_case(rng, size=None):
     case['nget'] = rng.choice([4, 8, 16])
     case['gseed'] = rng.randrange(1 << 30)
     case['size'] = size
+    if rng.random() < 0.3:
+        # a history BEFORE set-up: quantities are read through the index lists, then some references are re-pointed
+        case['pre'] = {'seed': rng.randrange(1 << 30), 'reads': rng.random() < 0.8, 'repoint': rng.choice([1, 2, 3])}
     return case
+
+
+def apply_pre(ss, case, auto):
+    """the pre-set-up history of `case['pre']` on the real System: (1) read a group / model quantity through every
+    index list (the list object itself, as the linking code does), (2) re-point up to `repoint` references in place
+    to another existing device of the same class through the public `alter`; the case is updated so that the GIVEN
+    value of the field is the re-pointed one"""
+    import random
+    from andes.core.param import IdxParam
+    pre = case['pre']
+    rng = random.Random(pre['seed'])
+
+    def res(v):
+        return auto[v['auto']] if isinstance(v, dict) else v
+
+    def read_all():
+        for m in ss.models.values():
+            if m.n == 0:
+                continue
+            for pn, p in m.params.items():
+                if isinstance(p, IdxParam) and p.model is not None and (p.model in ss.groups or p.model in ss.models):
+                    tgt = ss.groups[p.model] if p.model in ss.groups else ss.models[p.model]
+                    try:
+                        tgt.get(src='u', idx=p.v, attr='v', allow_none=True, default=0)
+                    except Exception:     # noqa  (dangling / incompatible references are judged elsewhere)
+                        pass
+    if pre['reads']:
+        read_all()
+    done = 0
+    order = list(range(len(case['adds'])))
+    rng.shuffle(order)
+    for k_ in order:
+        if done >= pre['repoint']:
+            break
+        a = case['adds'][k_]
+        m = ss.models[a['model']]
+        my = auto.get('#%d' % k_)
+        for pn, v in list(a['params'].items()):
+            p = m.params.get(pn)
+            if not isinstance(p, IdxParam) or p.model is None or v is None or p.get_property('unique'):
+                continue
+            if p.model not in ss.models and p.model not in ss.groups:
+                continue
+            cur = owner_of(ss, p.model, res(v))
+            if len(cur) != 1:
+                continue
+            others = [j for j in cur[0][0].idx.v if not (j == res(v) and type(j) is type(res(v)))]
+            if not others:
+                continue
+            new = rng.choice(others)
+            try:
+                m.alter(pn, my, new)
+            except Exception:     # noqa
+                continue
+            a['params'][pn] = new
+            done += 1
+            break
+    if pre['reads'] and done:
+        pass
+    return done
 
 
 def finder_case(rng):
@@ -478,6 +541,7 @@ def run_case(case):
     import logging
     import numpy as np
     ss, auto = build(case)
+    repointed = apply_pre(ss, case, auto) if case.get('pre') else 0
     errs = []
 
     class H(logging.Handler):
@@ -539,7 +603,8 @@ def run_case(case):
                                 if e.model in ss.groups),
              'model_links': sum(1 for m in ss.models.values() if m.n > 0 for e in m.cache.vars_ext.values()
                                 if e.model in ss.models),
-             'gets': len(gets), 'incompatible_links': len(incompatible)}
+             'gets': len(gets), 'incompatible_links': len(incompatible),
+             'pre_history': 1 if case.get('pre') else 0, 'repointed_references': repointed}
     return {'line': line, 'impl': impl, 'oracle': bad, 'stats': stats}
 
 
